@@ -9,6 +9,7 @@ from hypothesis import strategies as st
 
 import pendulum
 from pendulum import Duration
+from vf import strategies as S
 from vf.core import Skip, Sub, Violation, req
 
 warnings.simplefilter("ignore")
@@ -183,7 +184,7 @@ class IntervalDelegation(Sub):
     rule = "Interval arithmetic delegates to its elapsed Duration: same results as timedelta arithmetic on the elapsed time; non-trivial: negative interval"
 
     def strategy(self, ctx):
-        return st.fixed_dictionaries({"u1": st.integers(0, 4 * 10**15), "span": st.integers(-10**14, 10**14), "b": td_slots, "n": scalars_i})
+        return st.fixed_dictionaries({"u1": S.uni(0, 4 * 10**15), "span": S.uni(-10**14, 10**14), "b": td_slots, "n": scalars_i})
 
     def check(self, case, ctx):
         s = pendulum.datetime(1970, 1, 1).add(microseconds=case["u1"] % US).add(seconds=case["u1"] // US)
